@@ -18,7 +18,9 @@ def handlers : List (String × (Case → String)) := [
   ("cancel", Drivers.Cancel.run),
   ("overlap", Drivers.Overlap.run),
   ("leak", Drivers.Cancel.runLeak),
-  ("cutin", Drivers.Cut.runCutIn), ("collect", Drivers.Cut.runCollect), ("teardown", Drivers.Cut.runTeardown)
+  ("cutin", Drivers.Cut.runCutIn),
+  ("collect", Drivers.Cut.runCollect),
+  ("teardown", Drivers.Cut.runTeardown)
 ]
 
 def runCase (c : Case) : String :=
